@@ -114,6 +114,20 @@ def validate(ctx, tag, parts):
     return len(parts), violated
 
 
+CONV_CREDIT_KINDS = {"quai-balance-unexplained", "credit-before-lock", "conversion-delivered-twice", "conversion-without-outcome"}
+
+
+def conv_credit_run(ctx, cdrv, seed, rounds):
+    tr = ctx.work / "convcredit.ndjson"
+    p = vlib.run([cdrv, "random", "-out", tr, "-seed", seed, "-rounds", rounds], timeout=2400)
+    if p.returncode != 0:
+        raise Broken("convdrv (conversion credits) failed (%d): %s\n%s" % (p.returncode, p.stdout[-1200:], p.stderr[-2000:]))
+    info = json.loads(p.stdout.strip().splitlines()[-1])
+    if info.get("driver_error"):
+        raise Broken("convdrv (conversion credits) stopped: %s" % info["driver_error"])
+    return info
+
+
 def run(ctx):
     quick = ctx.quick
     drv = build_driver(ctx, "rewdrv")
@@ -133,9 +147,22 @@ def run(ctx):
     steps = 30 if quick else 60
     runs.append(("rand", ["-seed", ctx.seed * 100 + 1, "-steps", steps, "-n", nr], {"plan": "random", "seed": ctx.seed * 100 + 1}))
     runs.append(("bonus", ["-seed", ctx.seed * 100 + 2, "-steps", steps, "-n", nr, "-bonus"], {"plan": "random-bonus", "seed": ctx.seed * 100 + 2}))
+    # Qi->Quai conversions are the other kind of delayed credit the property names ("credited at exactly their unlock height",
+    # once): the conversion driver of C20 follows every conversion to the end of the longest lockup depth with a math/big account of
+    # every tracked balance; what concerns the CREDIT (when, how often) is judged here, what concerns the amount/rate by C20
+    cdrv = build_driver(ctx, "convdrv")
+    f_conv = pool.submit(conv_credit_run, ctx, cdrv, ctx.seed * 100 + 7, 8 if quick else 14)
     results = list(pool.map(lambda r: (r, run_driver(ctx, drv, r[0], [str(a) for a in r[1]])), runs))
+    cinfo = f_conv.result()
     parts = [(tag, tr, info, dict(rb, args=[str(a) for a in args])) for (tag, args, rb), (tr, info) in results]
     validated, tlc_viol = validate(ctx, "all", parts)
+    for pr in cinfo.get("problems") or []:
+        if pr["kind"] in CONV_CREDIT_KINDS:
+            vlib.report(ctx, {"kind": "conversion-" + pr["kind"]}, {"plan": "conversion-credits", "seed": ctx.seed * 100 + 7, "problem": pr})
+    if not ctx.violations and cinfo["stats"].get("lockedquai", 0) == 0:
+        raise Broken("conversion-credit run locked no converted Quai: %s" % json.dumps(cinfo["stats"]))
+    cov.update(conversion_credit_run={"conversions_followed": cinfo.get("conversions"), "blocks": cinfo.get("blocks"),
+                                      "converted_quai_credits": cinfo["stats"].get("lockedquai", 0)})
     events = blocks = 0
     stats, samples = {}, []
     for _, (tr, info) in results:
